@@ -388,3 +388,16 @@ Example C18_fault_concrete :
   /\ c18_fault_case c [] false None [((0,4),false); ((4,8),false); ((8,10),false)] = 0
   /\ c18_fault_case (COff false 10 4) [0] false (Some [[0;0]; [0;0;0;0]; [0;0;0;0]]) [((0,4),true); ((0,2),false); ((0,4),false); ((0,4),false)] = 7.
 Proof. vm_compute. repeat split; reflexivity. Qed.
+
+(* ---------------- single decisions whose variants were seeded (Model/SmallVariants.v) ---------------- *)
+From Verif Require SmallVariants SmallVariantsP.
+(* a FITS pass is as long as the extension it reads; the length of extension 1 is right only when the two agree *)
+Theorem C18_fits_pass_is_the_table : forall (tables : list (list nat)) (hdu : nat),
+  SmallVariants.fits_pass tables hdu = nth hdu tables nil.
+Proof. exact SmallVariantsP.fits_pass_is_the_table. Qed.
+Print Assumptions C18_fits_pass_is_the_table.
+Theorem C18_fits_length_of_extension_one_refuted :
+  exists tables hdu, SmallVariants.fits_pass_len1 tables hdu <> nth hdu tables nil /\
+                     (length (SmallVariants.fits_pass_len1 tables hdu) < SmallVariants.fits_len tables hdu)%nat.
+Proof. exact SmallVariantsP.fits_pass_len1_refuted. Qed.
+Print Assumptions C18_fits_length_of_extension_one_refuted.
